@@ -14,9 +14,10 @@ const (
 	rEnd
 	rBeginFile
 	rEndFile
-	rPattern // $.p { ... next / exit ... }
-	rAlways  // pattern-less rule
-	rBeginX  // BEGIN { ...; exit }
+	rPattern  // $.p { ... next / exit ... }
+	rAlways   // pattern-less rule
+	rBeginX   // BEGIN { ...; exit }
+	rBodyless // a pattern without a body: prints $
 	nRuleKinds
 )
 
@@ -37,6 +38,8 @@ func c02RuleText(kind, i int) string {
 		return "{ print 'A" + id + "', $file }"
 	case rBeginX:
 		return "BEGIN { print 'BX" + id + "'; exit; print 'unreachable' }"
+	case rBodyless:
+		return "$.p"
 	}
 	panic("rule kind")
 }
@@ -45,6 +48,21 @@ type c02Elem struct {
 	p, n, x bool
 	obj     bool // an object with flags (else a scalar: every flag reads as falsy)
 	inArr   bool
+	idx     int
+	fx      bool
+	hasFx   bool
+}
+
+// render is the print form of the element (keys in sorted order).
+func (e c02Elem) render() string {
+	s := "{"
+	if e.hasFx {
+		s += "\"fx\": " + bstr(e.fx) + ", "
+	}
+	if e.inArr {
+		s += "\"i\": " + itoa(e.idx) + ", "
+	}
+	return s + "\"n\": " + bstr(e.n) + ", \"p\": " + bstr(e.p) + ", \"x\": " + bstr(e.x) + "}"
 }
 
 type c02Val struct {
@@ -54,7 +72,7 @@ type c02Val struct {
 }
 
 func c02MkElem(name string, inArr bool, idx int) (any, c02Elem) {
-	e := c02Elem{p: vh.Bool(name + "p"), n: vh.Bool(name + "n"), x: vh.Bool(name + "x"), obj: true, inArr: inArr}
+	e := c02Elem{p: vh.Bool(name + "p"), n: vh.Bool(name + "n"), x: vh.Bool(name + "x"), obj: true, inArr: inArr, idx: idx}
 	m := map[string]any{"p": e.p, "n": e.n, "x": e.x}
 	if inArr {
 		m["i"] = float64(idx)
@@ -77,6 +95,7 @@ func c02MkVal(name string, shape int) (any, c02Val) {
 		d, e := c02MkElem(name+"o", false, 0)
 		fx := vh.Bool(name + "fx")
 		d.(map[string]any)["fx"] = fx
+		e.fx, e.hasFx = fx, true
 		return d, c02Val{shape: 1, elems: []c02Elem{e}, fx: fx}
 	case 4:
 		return 5.0, c02Val{shape: 2, elems: []c02Elem{{}}}
@@ -118,6 +137,10 @@ func c02Spec(kinds []int, files [][]c02Val, names []string) string {
 			rules:
 				for i, k := range kinds {
 					switch k {
+					case rBodyless:
+						if e.obj && e.p {
+							out += e.render() + "\n"
+						}
 					case rAlways:
 						out += "A" + itoa(i) + " " + names[fi] + "\n"
 					case rPattern:
@@ -163,6 +186,9 @@ func VHC02Schedule() {
 	prog := ""
 	for i := range kinds {
 		kinds[i] = vh.Choose("rule"+itoa(i), nRuleKinds)
+		if i > 0 && kinds[i-1] == rBodyless && kinds[i] == rAlways {
+			return // `pattern` NEWLINE `{ body }` is ONE rule in this grammar (newlines are not significant there)
+		}
 		prog += c02RuleText(kinds[i], i) + "\n"
 	}
 	// input configuration: which files hold which value shapes
